@@ -16,13 +16,17 @@
          long string.  Oracle: what was built is what was asked, deserialize(serialize(m)) == m field by
          field from an exact-size buffer, serialize idempotent.
     (c2) programs GENERATED so that the module the real compiler emits has a table size on / around a
-         power of two: function-table entries (1..513/514: the compiler stops at 512 user functions, the
-         synthetic __init__ and main come on top) in five shapes, pooled strings 2^k-1, 2^k, 2^k+1 for
-         k <= 13 (thorough: k <= 16, i.e. 65535..65537), one literal of 0,1,255..257,65535..65537 bytes
-         (thorough: 2^20), code bytes / entry offset / loop body across 2^15, 2^16, 2^17 (thorough: 2^20)
-         hit exactly through a calibrated mix of a 16-byte and a 7-byte statement, 1..300 imports.  The
-         achieved sizes are read back from the emitted file (probe `info`).  Oracle: as (a) - three ways
-         of running agree on stdout, exit status and stderr class, and the file round-trips.
+         power of two: function-table entries 1..513 from 1..512 top-level definitions in three shapes
+         (main last, main first, with a global = synthetic __init__; 513 definitions: refused) and
+         2^k-1, 2^k, 2^k+1 entries for 9 <= k <= 12 (thorough: k <= 15) by NESTED functions on top of 512
+         top-level ones (65537: the parser gives up); pooled strings 2^k-1, 2^k, 2^k+1 for k <= 13
+         (thorough: k <= 16, i.e. 65535..65537); one literal of 0, 1, 255..257, 65535..65537 bytes
+         (thorough: 2^20, 2^20+1); code bytes / main's code offset / a loop body across 2^15, 2^16, 2^17
+         (thorough: 2^20) hit exactly through a mix, calibrated on the tree under test, of a 16-byte and
+         a 7-byte statement; 1, 2, 31..33, 255..257, 300 extern declarations with the one that is called
+         first or last.  The achieved sizes are read back from the emitted file (probe `info`) and the
+         boundaries the family exists for must have been reached (vacuity guard).  Oracle: as (a) - three
+         ways of running agree on stdout, exit status and stderr class, and the file round-trips.
 (d) EXIT STATUS AND OUTPUT AFTER A RUNTIME ERROR: the full product  error kind (failed assert, at /
     array_set / array_remove_at out of range, array_pop of an empty array, call depth, unresolvable extern,
     and a control that does not fail) x place (main, callee, callee of callee, loop in main, loop in callee,
@@ -30,10 +34,16 @@
     an int 0, 1, 7, 255, 256, -1; a string; a bool; nothing declared; a pending int operand 0 / 7 / 256 of
     an unfinished addition) x output before it (none, a line, an unterminated line, 90 KB).  Oracle: the
     three ways agree on stdout bytes, exit status and stderr class (no runtime error / runtime error with
-    the VM's message / module refused).
+    the VM's message / module refused).  Quick tier: 8 kinds x 5 places (main, callee of callee, loop,
+    second call, global initialiser) x 8 frame states (int 0, 7, 256, -1; string; none; pending 0, 7) x
+    2 prefixes (line, unterminated line) = 580 programs; thorough: the whole product, 2436 programs.
+The generated families run first; a disagreement is reported only after a program of its signature group,
+re-run alone twice, shows it both times.  Vacuity guards: family sizes, boundaries reached, every non-control
+program ends in a runtime error under --run, >= 5 distinct VM messages, outcomes not all alike.
 """
 import glob
 import os
+import time
 
 from .. import common, corpus
 
@@ -551,7 +561,7 @@ def do_sizes(rep, tier, plain, iprobe, work):
             raise common.HarnessError("size family: outcomes are nearly all identical")
     for r in ok[:200:25]:
         rep.sample({"size_program": r["name"], "tables": {k: r["info"][k] for k in ("strings", "functions", "code", "imports", "maxstr")} if "info" in r else None,
-                    "exit": r["norm"]["--run"][0]}, cap=14)
+                    "exit": r["norm"]["--run"][0]}, cap=16)
 
     return [r["nvm"] for r in ok], len(ok)
 
@@ -599,7 +609,7 @@ def do_traps(rep, tier, plain, work):
             raise common.HarnessError("trap family: outcomes are nearly all identical")
     for r in tok[:len(tok):max(1, len(tok) // 6)]:
         rep.sample({"trap_program": r["name"], "exit": r["norm"]["--run"][0], "stderr_class": "/".join(r["norm"]["--run"][2]),
-                    "stdout_bytes": len(r["norm"]["--run"][1])}, cap=22)
+                    "stdout_bytes": len(r["norm"]["--run"][1])}, cap=8)
 
     return len(tok), (kinds, wheres, stacks, outs)
 
@@ -620,7 +630,6 @@ def run(tier):
 
 def _run(tier, bg):
     rep = common.Report("C10", tier)
-    rep.set_deadline(170 if tier == "quick" else 1700)
     tree = common.build_tree("asan")
     plain = common.build_tree("plain")      # wrapper binaries are built by the plain toolchain, as a user would
     probe = tree.build_probe(os.path.join(common.VERIF, "vf/probes/nvm_probe.c"), "nvm_probe")
@@ -654,6 +663,19 @@ def _run(tier, bg):
         fe.close()
         return rc, open(fo.name, "rb").read(), open(fe.name, "rb").read()
 
+    # ---------------- (d) and (c2): generated programs first (the general enumerations; skipped, with
+    # exhaustive=false, only when the time budget - counted from here, after the builds - is already spent)
+    rep.set_deadline((time.time() - rep.t0) + (150 if tier == "quick" else 1600))
+    nvms = []
+    n_size = n_trap = 0
+    alphabet = trap_alphabet(tier)
+    if not rep.out_of_time():
+        n_trap, alphabet = do_traps(rep, tier, plain, work)
+    if not rep.out_of_time():
+        more, n_size = do_sizes(rep, tier, plain, iprobe, work)
+        nvms += more
+    kinds, wheres, stacks, outs = alphabet
+
     # ---------------- (a) compiler-produced modules
     srcs = corpus.hand_programs() + sorted(glob.glob(os.path.join(common.VERIF, "vf/corpus_vm/*.nano")))
     srcs.append(gen_many(os.path.join(work, "g_many.nano")))
@@ -673,7 +695,6 @@ def _run(tier, bg):
             srcs.append(pth)
     jobs = [(plain.root, plain.exe("nano_vm"), plain.exe("nano_virt"), s, work) for s in srcs]
     results = common.pmap(_observe, jobs)
-    nvms = []
     for r in results:
         name = os.path.basename(r["src"])
         if r["emit"][0] != 0 or "file" not in r:
@@ -690,17 +711,7 @@ def _run(tier, bg):
             rep.violation("c10a:" + name, {"program.nano": open(r["src"]).read(), "observations.txt": describe(norm)},
                           "%s: run / file / wrapper disagree: %s (%s)" % (name, {k: v[0] for k, v in norm.items()}, sig), REPLAY_SH)
         nvms.append(r["nvm"])
-        rep.sample({"program": name, "exit": norm["--run"][0], "stdout_bytes": len(norm["--run"][1])})
-
-    # ---------------- (c2) and (d): generated programs (skipped, with exhaustive=false, when the time budget is spent)
-    n_size = n_trap = 0
-    alphabet = trap_alphabet(tier)
-    if not rep.out_of_time():
-        more, n_size = do_sizes(rep, tier, plain, iprobe, work)
-        nvms += more
-    if not rep.out_of_time():
-        n_trap, alphabet = do_traps(rep, tier, plain, work)
-    kinds, wheres, stacks, outs = alphabet
+        rep.sample({"program": name, "exit": norm["--run"][0], "stdout_bytes": len(norm["--run"][1])}, cap=22)
 
     # ---------------- file round trip of every compiler-produced module
     rmods, _sk = corpus.repo_modules(tree, os.path.join(work, "rmods"))
@@ -746,7 +757,7 @@ def _run(tier, bg):
     rep.count("states", nmods)
     rep.count("transitions", nmods * 3)
     rep.coverage["api_built_modules"] = nmods
-    rep.sample({"api_module": "strings=['a',''] functions=[profile 2 (arity 0x1234, offset 0x12345678, ...)] imports=[3 params] debug=2 code=4097 flags=5 entry=0xFFFFFFFF"})
+    rep.sample({"api_module": "strings=['a',''] functions=[profile 2 (arity 0x1234, offset 0x12345678, ...)] imports=[3 params] debug=2 code=4097 flags=5 entry=0xFFFFFFFF"}, cap=26)
 
     rc, out, err = collect("sizes", 3000)
     out = out.decode(errors="replace")
@@ -773,15 +784,15 @@ def _run(tier, bg):
     rep.count("states", nsz)
     rep.count("transitions", nsz * 3)
     rep.coverage["api_size_boundary_modules"] = nsz
-    rep.sample({"api_size_module": "sweep strings=4097 (others: 3 strings / 2 functions / 5 code bytes / 1 import / 1 debug entry)"}, cap=24)
-    rep.sample({"api_size_module": "product strings=4097 longstr=65536 fns=513 code=65537 imps=4097 lastparams=257 dbg=513"}, cap=24)
+    rep.sample({"api_size_module": "sweep strings=4097 (others: 3 strings / 2 functions / 5 code bytes / 1 import / 1 debug entry)"}, cap=26)
+    rep.sample({"api_size_module": "product strings=4097 longstr=65536 fns=513 code=65537 imps=4097 lastparams=257 dbg=513"}, cap=26)
 
     rep.assumptions += [
         "exit statuses compared modulo 256",
         "observations are stdout bytes, exit status (the property's 'output' and 'exit status') and the stderr CLASS: no runtime error / runtime error + the VM's message / module refused; other stderr text (compiler warnings of --run, the differing 'Runtime error: <kind>' banner of nano_vm) is not compared",
         "structural alphabet: 6 string sets x function lists (<=3 of 4 profiles) x import lists (<=2 of 3 profiles) x 0-2 debug entries x 4 code lengths x 8 flag values x 3 entry points",
         "size boundaries through the API: every table over {0} u {2^k-1,2^k,2^k+1} (bounds per tier in the docstring) at two base settings of the others + full product of a reduced list; function/import/debug records carry index-dependent field values",
-        "size boundaries through the compiler: the compiler accepts at most 512 user functions (513/514 table entries with __init__ / synthetic main), 256 externs and emits no debug entries - larger function / import / debug tables exist only in the API-built part; code sizes are hit exactly by calibrating two statement sizes on the tree under test",
+        "size boundaries through the compiler: it accepts at most 512 top-level functions (larger function tables come from nested functions, up to 4097 entries quick / 32769 thorough; 65537 is beyond the parser), keeps 256 externs and emits no debug entries - larger import / debug tables exist only in the API-built part; code sizes are hit exactly by calibrating two statement sizes on the tree under test",
         "runtime errors: product %d kinds x %d places x %d frame states x %d output prefixes (combinations of a pending operand with a statement-only error form do not exist); errors reachable from source programs only (no hostile modules: C13)" % (len(kinds), len(wheres), len(stacks), len(outs)),
         "a disagreement among generated programs is reported only after a program of its signature group, re-run alone twice (10x time limits after a timeout), shows the same disagreement both times",
     ]
